@@ -19,7 +19,7 @@ def meta(ch, carrier, salt, method):
     if ch == 'x':
         pm = 'hash_poison' if carrier == 'Hash' else 'eq_poison'
         return ['%s(ignore, method(%s))', '%s(method(%s), ignore)'][salt % 2] % (carrier, pm)
-    return '%s(method(%s))' % (carrier, method) if salt % 2 else '%s(method = "%s")' % (carrier, method)
+    return ['%s(method = "%s")', '%s(method(%s))', '%s(ignore = false, method(%s))', '%s(method(%s), ignore(false))'][salt % 4] % (carrier, method)
 
 
 def build(shape, assign, cfg, ctx='alone', small_domain=False, repr=None, discr=None, probe=None):
